@@ -31,6 +31,13 @@ func VH_C12_glob_range() {
 	vobs("match", m, err != nil)
 	if m {
 		vreach("matched")
-		vassert("C12.K1.match_in_range", vhInRange(g, s, desc))
+		// known finding (pinned by TestGlob, so not repairable without editing the suite): a literal
+		// prefix ending in 0xFF gets the successor prefix+"\x00", which excludes prefix+"\x01"...
+		n := 0
+		for n < len(p) && p[n] != '*' && p[n] != '?' && p[n] != '[' && p[n] != '\\' {
+			n++
+		}
+		kf := vknown("C12-glob-prefix-ff") && n > 0 && p[n-1] == 0xFF
+		vassertK("C12.K1.match_in_range", vhInRange(g, s, desc), kf, "C12-glob-prefix-ff")
 	}
 }
